@@ -5,7 +5,7 @@ from vlib import Failure, compare, finish, hexs, unhexs
 
 COQ_FILES = ["Bytes.v", "FrameModel.v", "FrameProofs.v"]
 
-KEYS = ["a", "A", "b", "file", "File", "x"]
+KEYS = ["a", "A", "b", "file", "File", "x", "fil", "fi", "ab", "aB", "AlbumArtist", "Album", "songid", "song"]
 
 
 def wire_of(fields, binary):
